@@ -12,6 +12,15 @@ pub fn slice_eq(a: &[u8], b: &[u8]) -> (r: bool)
     ensures r == (a@ == b@),
 { a == b }
 
+pub proof fn axiom_lits()
+    ensures "rue".spec_bytes() == rue(), "alse".spec_bytes() == alse(), "ull".spec_bytes() == ull(),
+{
+    reveal_strlit("rue"); reveal_strlit("alse"); reveal_strlit("ull");
+    vstd::string::is_ascii_spec_bytes("rue"); vstd::string::is_ascii_spec_bytes("alse"); vstd::string::is_ascii_spec_bytes("ull");
+    assert("rue".spec_bytes() =~= rue());
+    assert("alse".spec_bytes() =~= alse());
+    assert("ull".spec_bytes() =~= ull());
+}
 pub open spec fn is_esc_status(st: ParseStatus) -> bool { st is HasEscaped }
 
 pub proof fn lemma_has_bs_extend(s: Seq<u8>, i0: int, a: int, b: int)
